@@ -74,42 +74,88 @@ def main():
         shutil.rmtree(scratch, ignore_errors=True)
 
 
-def selftest(repo, only):
-    """Every mutant must be reported by its expected rule (exit 1); every
-    quiet-set patch must leave its checks silent (exit 0)."""
+def _specs(only):
     specs = []
-    for meta in sorted(glob.glob(os.path.join(VERIF, "selftest", "mutants", "*.json"))
-                       + glob.glob(os.path.join(VERIF, "seeded", "*", "meta.json"))):
+    metas = sorted(glob.glob(os.path.join(VERIF, "selftest", "mutants", "*.json"))
+                   + glob.glob(os.path.join(VERIF, "selftest", "quiet", "*.json"))
+                   + glob.glob(os.path.join(VERIF, "seeded", "*", "meta.json")))
+    for meta in metas:
         m = json.load(open(meta))
         d = os.path.dirname(meta)
         patch = os.path.join(d, m.get("patch", "patch.diff"))
         if not os.path.exists(patch):
             patch = meta[:-5] + ".diff"
         name = m.get("name") or os.path.basename(d if meta.endswith("meta.json") else meta[:-5])
-        if only and not any(o in name for o in only):
+        if only and not any(o in name or o in meta for o in only):
             continue
         specs.append((name, patch, m))
+    return specs
+
+
+def _one(args):
+    """worker: own scratch repo copy and own extraction cache (seeded with the
+    dependency build of the main cache so only `domain` itself is rebuilt)."""
+    slot, name, patch, m = args
+    base = os.path.join(os.environ.get("VERIF_SCRATCH_BASE", "/var/tmp"), "verif-selftest-%d" % slot)
+    repo = os.path.join(base, "repo")
+    cache = os.path.join(base, "cache")
+    os.makedirs(cache, exist_ok=True)
+    main_t = os.path.join(VERIF, ".cache", "target-all")
+    if not os.path.isdir(os.path.join(cache, "target-all")) and os.path.isdir(main_t):
+        subprocess.call(["cp", "-a", main_t, os.path.join(cache, "target-all")])
+    make_copy(repo)
+    rc, out = apply_patch(repo, patch)
+    lines = []
     bad = 0
-    for name, patch, m in specs:
-        make_copy(repo)
-        rc, out = apply_patch(repo, patch)
-        if rc != 0:
-            print("%-40s PATCH-FAILED" % name)
+    if rc != 0:
+        return name, 1, ["%-44s PATCH-FAILED" % name]
+    for exp in m.get("expect", []):
+        rc, out = run_check(repo, exp["check"], {"VERIF_CACHE": cache})
+        want_rule = exp.get("rule")
+        if exp.get("quiet"):
+            ok = rc == 0
+        else:
+            ok = rc == 1 and (want_rule is None or ("rule=" + want_rule) in out)
+        lines.append("%-44s %-4s %-14s %s" % (name, exp["check"], want_rule or ("quiet" if exp.get("quiet") else ""),
+                                              "ok" if ok else ("ALARM" if exp.get("quiet") else "MISSED") + " (exit %d)" % rc))
+        if not ok:
             bad += 1
-            continue
-        for exp in m.get("expect", []):
-            rc, out = run_check(repo, exp["check"])
-            want_rule = exp.get("rule")
-            if exp.get("quiet"):
-                ok = rc == 0
-            else:
-                ok = rc == 1 and (want_rule is None or ("rule=" + want_rule) in out)
-            print("%-40s %-4s %-14s %s" % (name, exp["check"], want_rule or ("quiet" if exp.get("quiet") else ""),
-                                           "ok" if ok else "MISSED (exit %d)" % rc))
-            if not ok:
-                bad += 1
-                for l in out.splitlines()[-6:]:
-                    print("      " + l[:300])
+            for l in [l for l in out.splitlines() if "rule=" in l or "CHECK-ERROR" in l or l.startswith("VIOLATION")][:6]:
+                lines.append("      " + l[:400])
+    return name, bad, lines
+
+
+def selftest(repo, only):
+    """Every mutant must be reported by its expected rule (exit 1); every
+    quiet-set patch must leave its checks silent (exit 0)."""
+    import multiprocessing
+    jobs = 6
+    args = [a for a in only if not a.startswith("-j")]
+    for a in only:
+        if a.startswith("-j"):
+            jobs = int(a[2:])
+    specs = _specs(args)
+    bad = 0
+    q = multiprocessing.Manager().Queue()
+    for i in range(jobs):
+        q.put(i)
+    def task(spec):
+        return spec
+    from concurrent.futures import ThreadPoolExecutor
+    def run(spec):
+        slot = q.get()
+        try:
+            return _one((slot,) + spec)
+        finally:
+            q.put(slot)
+    try:
+        with ThreadPoolExecutor(max_workers=jobs) as ex:
+            for name, b, lines in ex.map(run, specs):
+                bad += b
+                print("\n".join(lines), flush=True)
+    finally:
+        for i in range(jobs):
+            shutil.rmtree(os.path.join(os.environ.get("VERIF_SCRATCH_BASE", "/var/tmp"), "verif-selftest-%d" % i), ignore_errors=True)
     print("selftest: %d spec(s), %d problem(s)" % (len(specs), bad))
     return 1 if bad else 0
 
